@@ -85,6 +85,23 @@ theorem update_of_not_mem (l : List (Nat × α)) (n : Nat) (v : α) (h : n ∉ l
     update l n v = l ++ [(n, v)] := by
   unfold update; rw [if_neg (fun h' => h ((any_key_iff l n).1 h'))]
 
+/-- rewriting a file with the contents it already has changes nothing (given unique numbers) -/
+theorem update_same (l : List (Nat × α)) (n : Nat) (v : α) (hnd : (l.map Prod.fst).Nodup)
+    (h : lookup l n = some v) : update l n v = l := by
+  have hmem : n ∈ l.map Prod.fst := List.mem_map.2 ⟨(n, v), mem_of_lookup l n v h, rfl⟩
+  rw [update_of_mem l n v hmem]
+  conv => rhs; rw [← List.map_id l]
+  apply List.map_congr_left
+  intro p hp
+  by_cases hpn : p.1 = n
+  · have h2 : lookup l n = some p.2 := lookup_of_mem l n p.2 hnd (by rw [← hpn]; exact hp)
+    rw [h] at h2
+    injection h2 with h2
+    unfold setAt
+    rw [hpn, beq_self_eq_true, if_pos rfl, h2, ← hpn]
+    rfl
+  · exact setAt_of_ne n v p hpn
+
 theorem lookup_map_setAt (l : List (Nat × α)) (n m : Nat) (v : α) :
     lookup (l.map (setAt n v)) m = if m = n then (if n ∈ l.map Prod.fst then some v else none) else lookup l m := by
   induction l with
